@@ -4,6 +4,9 @@
 (* logger (src/lib.rs: ConfiguredLogger::log, Appender::append, and the      *)
 (* error-handler loop of Logger::log), one action per filter consultation   *)
 (* and per append call, so that "who is consulted after whom" is state.      *)
+(* What the sink is plays no part: an Append implementor, or a log::Log       *)
+(* implementor attached through the blanket adapter (src/append/mod.rs)       *)
+(* whose own enabled() answers no - the replay uses both.                     *)
 (***************************************************************************)
 EXTENDS Integers, Sequences, FiniteSets, TLC
 
